@@ -1568,6 +1568,9 @@ class Engine:
                 return self.call_function(m, args, kwargs, st, self_cls=ci.qual)
             if m.kind == "classmethod":
                 return self.call_function(m, [SV("cls", x=ci)] + args, kwargs, st, self_cls=ci.qual)
+            sp = self.schema.call_method_special(self, obj, m, ci, args, kwargs, st)
+            if sp is not None:
+                return sp
             return self.call_function(m, [obj] + args, kwargs, st, self_cls=obj.cls)
         if k == "cls":
             return self.construct(fv.x, args, kwargs, st)
